@@ -185,7 +185,12 @@ class _BaseSCML(MahalanobisMixin):
       return np.sqrt(w.T)*basis  # equivalent to np.diag(np.sqrt(w)).dot(basis)
 
     else:   # if metric is full rank
-      return components_from_metric(np.matmul(basis.T, w.T*basis))
+      # a nonnegative combination of rank-one PSD matrices is PSD: an
+      # eigenvalue can only be negative through the rounding errors of that
+      # sum (the active bases need not be linearly independent)
+      metric = np.matmul(basis.T, w.T*basis)
+      tol = n_basis * np.finfo(metric.dtype).eps * np.trace(metric)
+      return components_from_metric(metric, tol=tol)
 
   def _to_index_points(self, triplets):
     shape = triplets.shape
